@@ -3,7 +3,7 @@
    skfem.quadrature.get_quadrature (Gen.C08_All, Gen.C08_Data_...), the soundness of the Z checker and
    the tensor theorems are in Proofs.C08_RulesProofs / Proofs.C08_TensorProofs. *)
 From Coq Require Import ZArith List QArith Qabs.
-Require Import Model.C08_Rules Proofs.C08_RulesProofs Proofs.C08_TensorProofs Proofs.C08_FastProofs Gen.C08_All.
+Require Import Model.C08_Rules Proofs.C08_RulesProofs Proofs.C08_TensorProofs Proofs.C08_FastProofs Proofs.C08_Explicit Gen.C08_All.
 Import ListNotations.
 
 (* THE PROPERTY (finite, bound stated: orders -2 .. nmax c).  For every reference cell c and every
@@ -36,6 +36,42 @@ Theorem C08_weights_sum_to_measure :
   Qabs (qweight_sum (toQ r) - measureQ (cshape c)) <= 1 # (2 ^ 45).
 Proof. exact (table_weights table excluded tol45 table_ok). Qed.
 Print Assumptions C08_weights_sum_to_measure.
+
+(* the same statement in the familiar closed forms (a! = pfact a):
+   segment   int x^a            = 1/(a+1)                 for a <= n
+   triangle  int x^a y^b        = a! b! / (a+b+2)!        for a+b <= n
+   tetrahedron                    a! b! c! / (a+b+c+3)!   for a+b+c <= n
+   square / cube                  1/((a+1)(b+1)(c+1))     for a, b, c <= n each
+   prism                          a! b! / ((a+b+2)! (c+1)) for a+b <= n and c <= n *)
+Theorem C08_explicit_forms :
+  forall (n : Z) (r : drule),
+  ((-2 <= n <= nmax CLine)%Z -> excluded_b excluded CLine n = false -> lookup table CLine n = Some (Rule r) ->
+     forall a, (a <= Z.to_nat n)%nat -> Qabs (qrule_sum (toQ r) [a] - (1 # Pos.of_succ_nat a)) <= 1 # (2 ^ 45)) /\
+  ((-2 <= n <= nmax CTri)%Z -> excluded_b excluded CTri n = false -> lookup table CTri n = Some (Rule r) ->
+     forall a b, (a + b <= Z.to_nat n)%nat ->
+     Qabs (qrule_sum (toQ r) [a; b] - (Zpos (pfact a * pfact b) # pfact (a + b + 2))) <= 1 # (2 ^ 45)) /\
+  ((-2 <= n <= nmax CTet)%Z -> excluded_b excluded CTet n = false -> lookup table CTet n = Some (Rule r) ->
+     forall a b c, (a + b + c <= Z.to_nat n)%nat ->
+     Qabs (qrule_sum (toQ r) [a; b; c] - (Zpos (pfact a * pfact b * pfact c) # pfact (a + b + c + 3))) <= 1 # (2 ^ 45)) /\
+  ((-2 <= n <= nmax CQuad)%Z -> excluded_b excluded CQuad n = false -> lookup table CQuad n = Some (Rule r) ->
+     forall a b, (a <= Z.to_nat n)%nat -> (b <= Z.to_nat n)%nat ->
+     Qabs (qrule_sum (toQ r) [a; b] - (1 # (Pos.of_succ_nat a * Pos.of_succ_nat b))) <= 1 # (2 ^ 45)) /\
+  ((-2 <= n <= nmax CHex)%Z -> excluded_b excluded CHex n = false -> lookup table CHex n = Some (Rule r) ->
+     forall a b c, (a <= Z.to_nat n)%nat -> (b <= Z.to_nat n)%nat -> (c <= Z.to_nat n)%nat ->
+     Qabs (qrule_sum (toQ r) [a; b; c] - (1 # (Pos.of_succ_nat a * Pos.of_succ_nat b * Pos.of_succ_nat c))) <= 1 # (2 ^ 45)) /\
+  ((-2 <= n <= nmax CWedge)%Z -> excluded_b excluded CWedge n = false -> lookup table CWedge n = Some (Rule r) ->
+     forall a b c, (a + b <= Z.to_nat n)%nat -> (c <= Z.to_nat n)%nat ->
+     Qabs (qrule_sum (toQ r) [a; b; c] - (Zpos (pfact a * pfact b) # (pfact (a + b + 2) * Pos.of_succ_nat c))) <= 1 # (2 ^ 45)).
+Proof.
+  intros n r. repeat split; intros _ Hx Hl.
+  - exact (explicit_line _ _ _ (lookup_ok excluded tol45 table table_ok CLine n (Rule r) Hl Hx)).
+  - exact (explicit_tri _ _ _ (lookup_ok excluded tol45 table table_ok CTri n (Rule r) Hl Hx)).
+  - exact (explicit_tet _ _ _ (lookup_ok excluded tol45 table table_ok CTet n (Rule r) Hl Hx)).
+  - exact (explicit_quad _ _ _ (lookup_ok excluded tol45 table table_ok CQuad n (Rule r) Hl Hx)).
+  - exact (explicit_hex _ _ _ (lookup_ok excluded tol45 table table_ok CHex n (Rule r) Hl Hx)).
+  - exact (explicit_wedge _ _ _ (lookup_ok excluded tol45 table table_ok CWedge n (Rule r) Hl Hx)).
+Qed.
+Print Assumptions C08_explicit_forms.
 
 (* the orders listed in [raising] (printed in the evidence) are exactly reported as Raises *)
 Theorem C08_raising_orders :
